@@ -164,6 +164,7 @@ func genMixed(seed uint64, fam string, pf profile) *Scenario {
 		if pf.builtinP > 0 {
 			// own stream: the rest of the scenario is the same with and without this profile knob
 			r2 := common.NewRng(common.H(seed, "builtin", i))
+			b.FinEwma = r2.Chance(1, 3)
 			for _, ds := range [][]DecSpec{b.Pre, b.App} {
 				for di := range ds {
 					if ds[di].Kind == "sync" || !r2.Chance(pf.builtinP, 100) {
@@ -367,7 +368,7 @@ func genMixed(seed uint64, fam string, pf profile) *Scenario {
 			for ci := range sc.Clients {
 				var keep []Op
 				for _, o := range sc.Clients[ci] {
-					if o.B == 0 && (o.K == "add" || o.K == "abort" || o.K == "setcur" || o.K == "settotal" || o.K == "incr" || o.K == "increment" || o.K == "ewmaincr" || o.K == "proxyread") {
+					if o.B == 0 && (o.K == "add" || o.K == "abort" || o.K == "setcur" || o.K == "ewmasetcur" || o.K == "settotal" || o.K == "incr" || o.K == "increment" || o.K == "ewmaincr" || o.K == "proxyread") {
 						continue
 					}
 					keep = append(keep, o)
